@@ -22,11 +22,11 @@ files, real=1), random corruption of the last bytes.  Direct oracles on those la
 model): after a save the file ends with exactly the tag that the independent Python walker decodes to the
 items set, the bytes before the old tag start are untouched, and after a delete of a clean layout no APETAGEX
 remains.  Python's int() and bytes.decode('utf-8') are compared with ape_pyint / ape_utf8_valid once per run."""
-import io, os, struct, tempfile
+import io, os, re, struct, tempfile
 import mutagen
 from mutagen.apev2 import APEv2, APEValue
 import mutagen.apev2 as A
-from common import hx, unhx, zs, zp
+from common import hx, unhx, zs, zp, coq_bytes, vm_shard
 from . import walkers as W
 
 KINDS = {"Musepack", "WavPack", "MonkeysAudio", "OptimFROG", "TAK", "APEv2"}
@@ -36,6 +36,7 @@ RUNNER = "fam.ape"
 
 class _S:
     prims_done = False
+    vm_done = False
     nstep = 0
 
 
@@ -193,6 +194,9 @@ def check_step(ctx, kind, st):
     if not _S.prims_done:
         _S.prims_done = True
         check_prims(ctx)
+    if not _S.vm_done:
+        _S.vm_done = True
+        vm_crosscheck(ctx)
     if st.op not in ("save", "fresh", "delete", "moddelete"):
         return
     base = {"kind": kind.name, "op": st.brief(), "before_len": len(st.before), "before_tail": st.before[-200:].hex()}
@@ -375,6 +379,7 @@ def layouts(ctx, kind, st):
             after, exc = run_impl(do_save, data, real)
             r = ctx.model.call("ape_save", rflag, hx(data), enc_items(new_items))
             compare(ctx, "layout %s save" % name, r, after, exc, d)
+            ctx.count("ape:layout-save-" + ("raises" if exc else "ok"))
             if clean and exc is None:
                 indep_tail_check(ctx, name, after, new_items, prefix, d)
                 wf = ctx.model.call("ape_wf", hx(data))
@@ -400,3 +405,73 @@ def layouts(ctx, kind, st):
             after, exc = run_impl(do_moddelete, data, real)
             r = ctx.model.call("ape_moddelete", rflag, hx(data))
             compare(ctx, "layout %s moddelete" % name, r, after, exc, d)
+
+
+# ------------------------------------------------------------------ vm_compute cross-check
+def coq_items(items):
+    return "[" + "; ".join("mkItem %s %d %s" % (coq_bytes(k), kind, coq_bytes(v)) for k, kind, v in items) + "]"
+
+
+def vm_crosscheck(ctx):
+    """the extracted binary and Coq's own evaluator must agree on ape_save / ape_delete / ape_moddelete / ape_wf for
+    small synthetic files (once per run)"""
+    rng = ctx.rng
+    cases, keys = [], []
+    pool = [(b"Ti", 0, b"x"), (b"Cover", 1, b"\x00\xffAPE"), (b"Url", 2, b"http"), (b"ab", 0, b""), (b"Zz", 0, "\u00e4".encode("utf-8"))]
+    for i in range(12):
+        body = bytes(rng.randrange(256) for _ in range(rng.choice([0, 3, 9, 30])))
+        if b"APETAGEX" in body:
+            body = b""
+        its = rng.sample(pool, rng.randrange(0, 4))
+        new = rng.sample(pool, rng.randrange(0, 4))
+        trailer = rng.choice([b"", b"", b"TAG" + bytes(125)])
+        hdr = rng.random() < 0.8
+        r = ctx.model.call("ape_build", hx(body), zs(2000 if hdr else 1000), "1" if hdr else "0", enc_items(its), hx(trailer))
+        f0 = unhx(r[3:])
+        if i == 9:
+            f0 = f0[len(body):] + body                      # tag at the start
+        if i == 10:
+            f0 = body + b"APETAGEX" + bytes(16) + f0[len(body):]   # stray preamble
+        if i == 11:
+            f0 = f0[:-5] + b"\x00" + f0[-4:]                # corrupt footer
+        real = rng.random() < 0.5
+        F = coq_bytes(f0)
+        R = "true" if real else "false"
+        cases.append("match ape_save %s %s %s with Ok d => (0, d) | Raise _ => (1, []) end" % (R, F, coq_items(new)))
+        keys.append(("ape_save", real, f0, new))
+        cases.append("match ape_delete %s %s with Ok d => (0, d) | Raise _ => (1, []) end" % (R, F))
+        keys.append(("ape_delete", real, f0))
+        cases.append("match ape_moddelete %s %s with Ok d => (0, d) | Raise _ => (1, []) end" % (R, F))
+        keys.append(("ape_moddelete", real, f0))
+        cases.append("ape_wf %s" % F)
+        keys.append(("ape_wf", real, f0))
+    pre = "From Coq Require Import ZArith List. Import ListNotations. Require Import Base.Py Model.Fam_ape. Open Scope Z_scope."
+    res, log = vm_shard("fam_ape", pre, cases)
+    if res is None or len(res) != len(cases):
+        ctx.disagree("fam.ape.vm_shard", "vm_compute shard failed to run", {"log": str(log)[-300:]})
+        return
+    for key, r in zip(keys, res):
+        ctx.vm_cases += 1
+        r = r.replace("%Z", "")
+        rflag = "1" if key[1] else "0"
+        if key[0] == "ape_wf":
+            want = ctx.model.call("ape_wf", hx(key[2]))
+            if want != ("ok 1" if r == "true" else "ok 0"):
+                ctx.disagree("fam.ape.vm_shard", "ape_wf: extracted %s, vm_compute %s" % (want, r), {"file": key[2].hex()})
+            continue
+        if key[0] == "ape_save":
+            rm = ctx.model.call("ape_save", rflag, hx(key[2]), enc_items(key[3]))
+        else:
+            rm = ctx.model.call(key[0], rflag, hx(key[2]))
+        m = re.match(r"\((\d), \[([^\]]*)\]\)", r)
+        if not m:
+            ctx.disagree("fam.ape.vm_shard", "unparsable vm_compute result", {"result": r[:200]})
+            continue
+        if m.group(1) == "1":
+            ok = rm.startswith("raise")
+        else:
+            body = bytes(int(x) for x in m.group(2).split(";") if x.strip())
+            ok = rm == "ok " + hx(body)
+        if not ok:
+            ctx.disagree("fam.ape.vm_shard", "%s: extracted binary and vm_compute differ" % key[0],
+                         {"file": key[2].hex(), "real": key[1], "vm": r[:200], "extracted": rm[:200]})
